@@ -38,6 +38,9 @@ def signed(v, w):
     return v - (1 << w) if v >> (w - 1) else v
 
 
+PURE_OPS = {'load', 'getelementptr', 'zext', 'trunc', 'sext', 'bitcast', 'ptrtoint', 'inttoptr', 'freeze'}
+
+
 class Stop(Exception):
     def __init__(self, ins):
         self.ins = ins
@@ -90,7 +93,14 @@ class Region:
             k = o[0]
             if k == 'i':
                 if o[1] not in vals:
-                    raise Unsupported('%s: value %%%d defined outside the interpreted region' % (f.name, o[1]))
+                    # a pure value computed in the start block just before the region (operand loads of the first call): evaluate on demand
+                    pi = f.insts.get(o[1])
+                    if pi is not None and start_idx and pi.block == start_block and pi.idx < start_idx and pi.op in PURE_OPS and o[1] not in pending:
+                        pending.add(o[1])
+                        pure_eval(pi)
+                        pending.discard(o[1])
+                    if o[1] not in vals:
+                        raise Unsupported('%s: value %%%d defined outside the interpreted region' % (f.name, o[1]))
                 return vals[o[1]]
             if k == 'c':
                 return o[1] & ((1 << o[2]) - 1)
@@ -110,6 +120,55 @@ class Region:
                     b = val(ce['ops'][0])
                     return P_(b.reg, b.off + ce['off'])
             raise Unsupported('operand %r' % (o,))
+
+        if (start_block != 0 or start_idx) and args:
+            # a region inside the function: the parameters were spilled to their allocas at entry
+            for aid, k in f.arg_allocas().items():
+                if k < len(args):
+                    self.mem.setdefault((('alloca', f.name, frame, aid), 0), args[k])
+        pending = set()
+
+        def pure_eval(pi):
+            """evaluate one side-effect-free instruction (load / gep / cast / arithmetic / compare) outside the normal flow"""
+            w_ = width(pi.ty)
+            if pi.op == 'load':
+                p_ = val(pi.ops[0])
+                if not isinstance(p_, P_):
+                    raise Unsupported('%s: load through non-pointer at %s' % (f.name, pi.loc()))
+                if (p_.reg, p_.off) not in self.mem and p_.reg in self.zero_regions:
+                    self.mem[(p_.reg, p_.off)] = 0
+                if (p_.reg, p_.off) not in self.mem and self.discover is not None and p_.reg[0] == 'alloca':
+                    self.discover.append((p_.reg[3], p_.off, pi.ty))
+                    if (pi.ty or '').endswith('*'):
+                        obj = ('obj', 'input%d' % p_.reg[3]); self.zero_regions.add(obj); self.mem[(p_.reg, p_.off)] = P_(obj, 0)
+                    else:
+                        self.mem[(p_.reg, p_.off)] = 0
+                if (p_.reg, p_.off) not in self.mem:
+                    raise Unsupported('%s: read of unset memory %r at %s' % (f.name, p_, pi.loc()))
+                vals[pi.id] = self.mem[(p_.reg, p_.off)]
+            elif pi.op == 'getelementptr':
+                b_ = val(pi.ops[0])
+                if not isinstance(b_, P_):
+                    raise Unsupported('%s: gep on non-pointer' % f.name)
+                off_ = b_.off
+                for st_, io_ in zip(pi.steps, pi.ops[1:]):
+                    if st_[0] == 's':
+                        off_ += st_[1]
+                    else:
+                        iv_ = val(io_)
+                        sw_ = io_[2] if io_[0] == 'c' else (width(f.insts[io_[1]].ty) if io_[0] == 'i' else 64)
+                        off_ += signed(iv_, sw_) * st_[1]
+                vals[pi.id] = P_(b_.reg, off_)
+            elif pi.op in ('zext', 'trunc'):
+                v_ = val(pi.ops[0]); vals[pi.id] = v_ & ((1 << w_) - 1) if isinstance(v_, int) else v_
+            elif pi.op in ('bitcast', 'ptrtoint', 'inttoptr', 'freeze'):
+                vals[pi.id] = val(pi.ops[0])
+            elif pi.op == 'sext':
+                o_ = pi.ops[0]
+                sw_ = o_[2] if o_[0] == 'c' else (width(f.insts[o_[1]].ty) if o_[0] == 'i' else 64)
+                vals[pi.id] = signed(val(o_), sw_) & ((1 << w_) - 1)
+            else:
+                raise Unsupported('%s: cannot pre-evaluate %s' % (f.name, pi.op))
 
         bi = start_block; prev = None
         while True:
@@ -144,7 +203,13 @@ class Region:
                         self.mem[(p.reg, p.off)] = 0
                     if (p.reg, p.off) not in self.mem and self.discover is not None and p.reg[0] == 'alloca':
                         self.discover.append((p.reg[3], p.off, ins.ty))
-                        self.mem[(p.reg, p.off)] = 0
+                        if (ins.ty or '').endswith('*'):
+                            # an unknown pointer input: a fresh object whose fields read as 0
+                            obj = ('obj', 'input%d' % p.reg[3])
+                            self.zero_regions.add(obj)
+                            self.mem[(p.reg, p.off)] = P_(obj, 0)
+                        else:
+                            self.mem[(p.reg, p.off)] = 0
                     if (p.reg, p.off) not in self.mem:
                         raise Unsupported('%s: read of unset memory %r at %s' % (f.name, p, ins.loc()))
                     vals[ins.id] = self.mem[(p.reg, p.off)]
